@@ -44,7 +44,7 @@ PROP_INVS = {
 # model-level mutants: with the deviation on, TLC must find a violation of one of the listed invariants
 PROP_MUTANTS = {
     "C13": [("MetaColumnsNameTypo", "always", ["ColumnsKept", "CatalogueExactlyOnce"])],
-    "C08": [("CursorIsNextWal", "never", ["Durable", "ContentOK"])],
+    "C08": [],   # the cursor mutant needs an ingestion that overlaps a flush: checked on MC_conc below
     "C07": [("MetaColumnsNameTypo", "always", ["ColumnsKept", "CatalogueExactlyOnce"])],
     "C18": [],
     "C11": [],
@@ -82,6 +82,17 @@ def model_jobs(prop, tier):
         j["rejected_by"] = r["violated"]
         jobs.append(j)
         log("model mutant %s rejected by %s" % (dev, r["violated"]))
+    if prop == "C08":
+        import conccheck
+        cfg = conccheck.conc_cfg("conc_mut_cursor", "never", 2, 1, "MCAvoidKnown", dev='{"CursorIsNextWal"}')
+        r = run_tlc("MC_conc", cfg, workers=NCPU // 2, timeout=900)
+        if r["violated"] not in ("Durable", "ContentOK"):
+            raise MachineryError("model mutant CursorIsNextWal not rejected (got %s): invariant Durable is vacuous" % r["violated"])
+        j = tlc_job_summary(r)
+        j["mutant"] = "CursorIsNextWal"
+        j["rejected_by"] = r["violated"]
+        jobs.append(j)
+        log("model mutant CursorIsNextWal rejected by %s (concurrent configuration)" % r["violated"])
     return jobs
 
 
@@ -186,7 +197,19 @@ def run(prop, tier, replay_path=None):
     for tag, flags in (("f0", ["--combine", "0"]), ("f1", ["--combine", "1"])):
         rs, _ = tracecheck.record_and_validate(path, prop + "_" + tag, flags, [sd], per_shard=6 if tier == "quick" else 40)
         tv += rs
-    return verdict(prop, tier, jobs, behaviours, results + kf_results, t0, tv)
+    # C08 / C18 quantify over configurations in which the engine flushes on its own while clients ingest:
+    # randomised multi-threaded runs with tiny log limits and restarts, checked directly and by trace validation
+    stress = []
+    if prop in ("C08", "C18"):
+        import conccheck
+        flagsets = [["--combine", "1", "--bg-flush", "--clients", "4", "--queriers", "1", "--requests", "14", "--restarts", "3"],
+                    ["--combine", "0", "--bg-flush", "--clients", "3", "--queriers", "1", "--requests", "10", "--restarts", "2", "--io-threads", "4"],
+                    ["--combine", "999", "--bg-flush", "--clients", "5", "--queriers", "2", "--requests", "12", "--restarts", "2"]]
+        stress = conccheck.run_stress([sd * 977 + k for k in range(6 if tier == "quick" else 48)], flagsets)
+        for r in stress:
+            if r.get("tv"):
+                tv.append(r["tv"])
+    return verdict(prop, tier, jobs, behaviours, results + kf_results, t0, tv, stress)
 
 
 def relevant(prop, v):
@@ -195,8 +218,18 @@ def relevant(prop, v):
     return v["prop"] == prop
 
 
-def verdict(prop, tier, jobs, behaviours, results, t0, tv=()):
+def verdict(prop, tier, jobs, behaviours, results, t0, tv=(), stress=()):
     violations, known_hits = [], []
+    for r in stress:
+        for v in r["violations"]:
+            # lost or duplicated acknowledged rows in a run with restarts / background flushes
+            if prop == "C08" and v["prop"] in ("C08", "C10", "C07"):
+                kf = match_known("C10", v, r.get("panics", []))
+                if kf:
+                    known_hits.append(kf)
+                    continue
+                p = save_replay(prop, len(violations), {"kind": "stress", "seed": r["seed"], "flags": r["flags"]})
+                violations.append(("stress seed %d: %s: %s" % (r["seed"], v["oracle"], v["what"]), p))
     for r in tv:
         if not r["accepted"] and r.get("prop") == prop:
             p = save_replay(prop, len(violations), {"kind": "trace", "trace": r["norm_path"], "raw": r["raw_path"], "what": r["what"]})
@@ -259,6 +292,9 @@ def verdict(prop, tier, jobs, behaviours, results, t0, tv=()):
 
 def replay_single(prop, path):
     payload = json.load(open(path))
+    if payload.get("kind") in ("stress", "trace"):
+        import conccheck
+        return conccheck.replay_single(path)
     d = os.path.join(WORK, "hist")
     os.makedirs(d, exist_ok=True)
     bpath = os.path.join(d, "single_%d.ndjson" % os.getpid())
